@@ -22,6 +22,11 @@ theorem C20_mirror_tables_agree :
       (row.1.all fun mth => row.2.contains mth) &&
       (row.2.all fun mth => mth.2 || row.1.contains mth)) = true := by decide
 
+/-- **C20 / C19, mirrored traits keep their upstream names**: the trait name each mirror block declares — the one every
+    diagnostic about its methods prints as `Trait::method` — is the last segment of the path it mirrors (table regenerated
+    on every run). -/
+theorem C20_mirror_names_agree : (Generated.mirrorNamePairs.all fun p => p.1 == p.2) = true := by decide
+
 variable {α ρ : Type}
 
 theorem scriptResponders_length (script : List ρ) : (scriptResponders script).length = script.length := by
